@@ -767,9 +767,11 @@ class Walker:
             try:
                 pv = self.pval(rhs)
             except Undecided as u:
-                if self._rooted_at_stack(rhs):
-                    raise
-                pv = None
+                pv = self._member_start(rhs) if self.base != "stack" else None
+                if pv is None:
+                    if self._rooted_at_stack(rhs):
+                        raise
+                    pv = None
             if pv is not None:
                 self.ptrs[vid] = pv
                 if vid == self.stack_id:
@@ -792,6 +794,24 @@ class Walker:
 
     def _is_objcast(self, e):
         return False
+
+    def _member_start(self, e):
+        """`X->arr + <offset that cannot be evaluated>` with arr an array member of the state: the pointer stays inside
+        that member (its extent is SD.f's business), so for the size of the state it counts as the member itself"""
+        cur = strip(e)
+        for _ in range(8):
+            if not isinstance(cur, dict):
+                return None
+            if cur.get("k") == "Bin" and cur.get("op") in ("+", "-"):
+                cur = strip(cur["x"])
+                continue
+            if cur.get("k") == "Member" and "[" in (cur.get("t") or ""):
+                try:
+                    return self.pval(cur)
+                except Undecided:
+                    return None
+            return None
+        return None
 
     def _rooted_at_stack(self, e):
         r = ir.root_ref(e)
